@@ -106,10 +106,48 @@ pub fn steps(a: &Args) {
     std::process::exit(0);
 }
 
+/// spec -> impl: one TLC-enumerated integer matrix through lll_hnf (all flag combinations) and, if its rows are independent, lll
+fn enumerated<R: BigEnt + LLLRing>(t: &mut Tracer, st: &mut Stats, cid: usize, m: usize, n: usize, vals: &[i64]) where for<'x> &'x R: LLLRingOps<R> {
+    st.cases += 1;
+    t.emit(&json!({"op":"newcase","res":"ok","ring":R::ring(),"case":cid})); st.events += 1;
+    let a = Mat::from_data((m, n), vals.iter().map(|x| R::of_int(*x)));
+    for has in [[true, true], [false, false]] {
+        let a2 = a.clone();
+        let mut e = json!({"op":"hnf","ring":R::ring(),"type":R::tname(),"a":mat_json(&a),"has":has,"id":"hnf","case":cid});
+        match guarded(move || lll_hnf(&a2, has)) {
+            Err(msg) => { e["res"] = json!("panic"); e["panic"] = json!(msg); st.panics += 1; }
+            Ok((h, p, pinv)) => { let z = json!({"m":0,"n":0,"a":[]}); e["res"] = json!("ok"); e["h"] = mat_json(&h); e["p"] = p.map(|x| mat_json(&x)).unwrap_or(z.clone()); e["pinv"] = pinv.map(|x| mat_json(&x)).unwrap_or(z); }
+        }
+        t.emit(&e); st.events += 1;
+    }
+    let a1 = a.clone();
+    if m <= n && guarded(move || snf(&a1, [false; 4]).rank()).unwrap_or(usize::MAX) == m {
+        st.lll_cases += 1;
+        let a2 = a.clone();
+        let mut e = json!({"op":"lll","ring":R::ring(),"type":R::tname(),"a":mat_json(&a),"has":true,"case":cid});
+        match guarded(move || lll(&a2, true)) {
+            Err(msg) => { e["res"] = json!("panic"); e["panic"] = json!(msg); st.panics += 1; }
+            Ok((b, p)) => { e["res"] = json!("ok"); e["b"] = mat_json(&b); e["p"] = p.map(|x| mat_json(&x)).unwrap_or(json!({"m":0,"n":0,"a":[]})); }
+        }
+        t.emit(&e); st.events += 1;
+    }
+}
+
 pub fn record(a: &Args) {
     I64_AS_Z.store(true, std::sync::atomic::Ordering::Relaxed);
     let mut t = Tracer::create(&a.out);
     let mut st = Stats::default();
+    if let Some(pth) = &a.inp {
+        let mut k = 0usize;
+        for ln in read_ndjson(pth) {
+            let (m, n) = (ln["m"].as_u64().unwrap() as usize, ln["n"].as_u64().unwrap() as usize);
+            let vals: Vec<i64> = ln["a"].as_array().unwrap().iter().flat_map(|r| r.as_array().unwrap().iter().map(|x| x.as_i64().unwrap())).collect();
+            k += 1;
+            enumerated::<i64>(&mut t, &mut st, 100000 + k, m, n, &vals);
+            if k % 6 == 0 { enumerated::<GaussInt<i64>>(&mut t, &mut st, 200000 + k, m, n, &vals); }
+            if k % 6 == 3 { enumerated::<EisenInt<i64>>(&mut t, &mut st, 300000 + k, m, n, &vals); }
+        }
+    }
     let (nc, maxd, big) = if a.thorough() { (80, 6, 300) } else { (12, 4, 60) };
     let mut cid = 0;
     macro_rules! run { ($t:ty, $salt:expr, $maxd:expr, $big:expr, $machine:expr) => {{ let mut rng = a.rng($salt); for _ in 0..nc { cid += 1; case::<$t>(&mut rng, &mut t, &mut st, cid, $maxd, $big, $machine); } }} }
